@@ -5,6 +5,7 @@ use super::super::{
     meta_subscriber::MetaSubscriber,
     meta_topic::MetaTopic,
 };
+#[cfg(not(feature = "verif"))]
 use std::{
     fs::{OpenOptions, File},
     sync::{
@@ -17,6 +18,8 @@ use std::{
     fmt::Debug,
     num::NonZeroU32,
 };
+#[cfg(feature = "verif")]
+use {crate::verif::atomic::AtomicUsize, std::{fs::{OpenOptions, File}, sync::{Arc, atomic::Ordering::Relaxed}, fmt::Debug, num::NonZeroU32}};
 use memmap::{
     MmapOptions,
     MmapMut,
